@@ -266,6 +266,12 @@ def exec (op fmt payload : String) : Except String String := do
   | "lcast" =>
     let v ← runRd rdLNarsese payload
     pure (lcastOut v)
+  | "peg" =>
+    -- the published README grammar as reference: kind and tree it derives for the text
+    let s ← runRd rdStr payload
+    pure (match Peg.reference Gen.readmeGrammar s with
+      | some v => s!"ok {showLNarsese v}"
+      | none => "err")
   | "numok" =>
     -- is this (bits, text) pair what the model requires of a printed number?
     let x ← runRd rdNum payload
